@@ -35,7 +35,7 @@ claim("C06", "other",
       "Lock-order analysis of every inode-lock acquisition site reachable from any entry point: each nested acquisition must match an ordering idiom (guarded ascending, sorted loop, allocator-fresh, owned); every transaction ends exactly once on every path; no foreign transaction under locks; mutex pairing; nothing held across retry iterations; every terminator releases all locks on every path (L5). Termination of retry loops is not decided.",
       "lock-order + transaction typestate over go/ssa", "DESIGN.md section 3 C06")
 claim("C07", "other",
-      "Decides the stability dispatch of WRITE (reported level is the dispatched level, asynchronous commit only on the UNSTABLE arm), flush-before-success in COMMIT on every success end state, presence and provenance of a per-instance write verifier, and the upgrade when unstable writes are disabled. Durability itself is the journal's.",
+      "Decides the stability dispatch of WRITE (reported level is the dispatched level, asynchronous commit only on the UNSTABLE arm), flush-before-success in COMMIT on every success end state, presence and provenance of a per-instance write verifier, the upgrade when unstable writes are disabled, that an unstable write is acknowledged only when the journal accepted its commit, and that the three stability levels have their RFC 1813 wire values. Durability itself is the journal's.",
       "SSA value identity + must-pass-through", "DESIGN.md section 3 C07")
 claim("C08", "other",
       "Decides handle-codec symmetry, generation bump at every birth/death on every path with fixed writers of Kind/Gen, the checking accessor's guards, and that every handle argument of every procedure is checked before a success reply, under the transaction that replies (a validation is void after that transaction aborts). Uniqueness over a history is not decided.",
